@@ -2662,9 +2662,14 @@ def distributed_shampoo(
             state.avg_grad + grad)
         grad = new_avg_grad / statistics_compute_steps
 
+      # Statistics restored from a checkpoint are NumPy arrays. Closed over by
+      # the loop body of efficient_cond they would become compile-time constants
+      # and the accumulation would round differently from an uninterrupted run.
+      statistics = jax.tree.map(jnp.asarray, state.statistics)
+
       def compute_updated_statistics():
         return preconditioner.updated_statistics_from_grad(
-            state.statistics,
+            statistics,
             grad,
             w1=w1,
             w2=w2,
@@ -2676,7 +2681,7 @@ def distributed_shampoo(
 
       if statistics_compute_steps > 1:
         perform_step = step % statistics_compute_steps == 0
-        init_state = state.statistics
+        init_state = statistics
         new_statistics = list(
             efficient_cond(perform_step, compute_updated_statistics,
                            init_state))
